@@ -107,7 +107,8 @@ def raw_key(kind, key):
     return (st(key[0]), key[1])
 
 
-def observe(kind, h, universe, probe_keys):
+def observe(kind, h, universe, probe_keys, flip=0):
+    """flip (0/1) swaps which of the two spellings (size= / order=) each filtered query uses."""
     o = {}
     nodes = q(h.get_nodes)
     o["nodes"] = tags(nodes)
@@ -182,7 +183,7 @@ def observe(kind, h, universe, probe_keys):
         for up in (False, True):
             name = f"size={s}/up={int(up)}"
             # alternate between the size= and order= spelling of the same filter
-            if (s + up) % 2:
+            if (s + up + flip) % 2:
                 a = q(h.get_edges, size=s, up_to=up)
                 w = q(h.get_weights, order=s - 1, up_to=up)
                 wd = q(h.get_weights, size=s, up_to=up, asdict=True)
@@ -195,9 +196,9 @@ def observe(kind, h, universe, probe_keys):
             o["weights_dict/" + name] = emap(kind, wd, tag)
             if kind != "D":
                 o["num_edges/" + name] = val(
-                    q(h.num_edges, size=s, up_to=up) if s % 2 else q(h.num_edges, order=s - 1, up_to=up))
-        kw = {"size": s} if s % 2 else {"order": s - 1}
-        kw2 = {"order": s - 1} if s % 2 else {"size": s}
+                    q(h.num_edges, size=s, up_to=up) if (s + flip) % 2 else q(h.num_edges, order=s - 1, up_to=up))
+        kw = {"size": s} if (s + flip) % 2 else {"order": s - 1}
+        kw2 = {"order": s - 1} if (s + flip) % 2 else {"size": s}
         o[f"inc/size={s}"] = {tag(n): lst(kind, q(h.get_incident_edges, n, **kw)) for n in present}
         o[f"nbr/size={s}"] = {tag(n): tags(q(h.get_neighbors, n, **kw2)) for n in present}
         o[f"deg/size={s}"] = {tag(n): val(q(h.degree, n, **kw2)) for n in present}
@@ -213,8 +214,8 @@ def observe(kind, h, universe, probe_keys):
         o["in_deg"] = {tag(n): val(q(in_degree, h, n)) for n in present}
         o["out_deg"] = {tag(n): val(q(out_degree, h, n)) for n in present}
         for s in SIZES:
-            kw = {"size": s} if s % 2 else {"order": s - 1}
-            kw2 = {"order": s - 1} if s % 2 else {"size": s}
+            kw = {"size": s} if (s + flip) % 2 else {"order": s - 1}
+            kw2 = {"order": s - 1} if (s + flip) % 2 else {"size": s}
             o[f"src_edges/size={s}"] = {tag(n): lst(kind, q(h.get_source_edges, n, **kw)) for n in present}
             o[f"tgt_edges/size={s}"] = {tag(n): lst(kind, q(h.get_target_edges, n, **kw2)) for n in present}
             o[f"in_deg/size={s}"] = {tag(n): val(q(in_degree, h, n, **kw2)) for n in present}
